@@ -11,7 +11,7 @@ from hypothesis import strategies as st
 # 1 + 2**-30 is exact in float64 but not in float32: a float32 intermediate shows up as a wrong value
 SUM_ALPHA = [-4.0, -2.5, -1.0, -0.5, 0.0, 0.5, 1.0, 1.0, 3.0, 1024.0, 1.0 + 2.0**-30]
 PROD_ALPHA = [0.5, -0.5, 1.0, -1.0, 2.0, -2.0, 1.0, 0.0]
-VAR_ALPHA = [-3.0, -1.0, 0.0, 0.5, 1.0, 2.0, 1.0 + 2.0**-20]
+VAR_ALPHA = [-3.0, -1.0, 0.0, 0.5, 1.0, 2.0]  # no near-equal values: var/std would become ill-conditioned
 INT_ALPHA = [-4, -2, -1, 0, 1, 1, 3, 7]
 UINT_ALPHA = [0, 1, 1, 2, 3, 7]
 PROD_INT_ALPHA = [-2, -1, 1, 1, 2, 0]
